@@ -3,11 +3,12 @@
 # from a scratch copy of /verif (so nothing shared is disturbed). Prints each check's verdict lines.
 set -u
 PATCH=$(readlink -f "$1"); shift
+V=$(cd "$(dirname "$0")/.." && pwd)
 S=/tmp/seedrun.$$
 mkdir -p $S
 git -C /repo worktree add -f --detach $S/repo HEAD -q
 if ! git -C $S/repo apply "$PATCH"; then echo "PATCH-DOES-NOT-APPLY"; git -C /repo worktree remove --force $S/repo; rm -rf $S; exit 3; fi
-rsync -a --exclude .git /verif/ $S/verif/
+rsync -a --exclude .git $V/ $S/verif/
 export ZN_REPO=$S/repo
 cd $S/verif
 for id in "$@"; do
